@@ -50,7 +50,7 @@ def gen(rng, tier, i):
                 'actrl': wavegen.gen_actrl(rng, p=0.2)}
     sims = rng.randint(1, 4)
     return {'mode': 'dyn', 'script': script, 'sims': sims, 'delays': wavegen.gen_delays(rng), 'caps': wavegen.gen_caps(rng, p_fault=0.6),
-            'batches': wavegen.gen_batches(rng, n_max=3, sims=sims, p_k=0.0, p_reprop=0.2), 'actrl': None,
+            'argforms': wavegen.gen_argforms(rng), 'batches': wavegen.gen_batches(rng, n_max=3, sims=sims, p_k=0.0, p_reprop=0.2), 'actrl': None,
             'strip_forks': rng.random() < 0.5, 'cls': rng.choice(['cpu', 'cpu', 'gpu']), 'sched': wavegen.gen_order_sched(rng), 'block': wavegen.gen_block(rng),
             'poison': {'vals': [rng.choice([0, 1, 2.5, 7, 11.25, 40, 100, float(wsim.TMIN), float(wsim.TMAX), float(wsim.TMAX_OVL), -3]) for _ in range(rng.randint(3, 11))]}}
 
